@@ -226,8 +226,9 @@ class C14(CheckBase):
         owner = [None] * nsec
         for vi, vol in enumerate(s["volumes"]):
             lab = vol["label"]
-            owner[2 * vi] = "*CAT:0" + lab
-            owner[2 * vi + 1] = "*CAT:0" + lab
+            ci = 2 * "ABCDEFGH".index(lab)
+            owner[ci] = "*CAT:0" + lab
+            owner[ci + 1] = "*CAT:0" + lab
             origin = vol["start_track"] * s["spt"]
             for e in disc.all_entries(vol):
                 for sct in range(e["start"], e["start"] + disc.sectors_of(e["length"])):
